@@ -33,21 +33,34 @@ func witnessInPlace(t *testing.T, old, nw Tree) *ApplyResult {
 	return ar
 }
 
-// old directory P (with a child) becomes new file P, and old file Q becomes directory Q holding
-// Q's old content: Commit fails (ENOTEMPTY / EISDIR).
-func TestWitness_C02_dirfile(t *testing.T) {
+// old directory P (with a child) becomes new file P: Commit fails with ENOTEMPTY.
+func TestWitness_C02_dir_to_file(t *testing.T) {
 	a := witnessInPlace(t,
 		Tree{"d/x": &Entry{Kind: KFile, Data: Bytes(1, 1000)}, "keep": &Entry{Kind: KFile, Data: Bytes(2, 10)}},
 		Tree{"d": &Entry{Kind: KFile, Data: Bytes(3, 500)}, "keep": &Entry{Kind: KFile, Data: Bytes(2, 10)}})
+	fmt.Printf("dir->file: %+v\n", a)
+	if a != nil && a.Stage == "commit" && a.Err != nil {
+		fmt.Println("WITNESS-REPRODUCED C02/dir-to-file-commit")
+	} else {
+		fmt.Println("WITNESS-NOT-REPRODUCED C02/dir-to-file-commit")
+	}
+}
+
+// old file Q becomes a directory (or a symlink) while Q's unchanged content is reused at another
+// path: ensureDirsAndSymlinks removes Q before the pending transposition out of it is applied.
+func TestWitness_C02_kindchange_source(t *testing.T) {
 	b := witnessInPlace(t,
 		Tree{"q": &Entry{Kind: KFile, Data: Bytes(4, 1000)}},
 		Tree{"q/inner": &Entry{Kind: KFile, Data: Bytes(4, 1000)}})
-	ra := a != nil && a.Stage == "commit" && a.Err != nil
-	rb := b != nil && b.Stage == "commit" && b.Err != nil
-	fmt.Printf("dir->file: %+v\nfile->dir: %+v\n", a, b)
-	if ra || rb {
-		fmt.Println("WITNESS-REPRODUCED C02/dirfile-kind-change-commit")
+	c := witnessInPlace(t,
+		Tree{"f0": &Entry{Kind: KFile, Data: Bytes(5, 70000)}},
+		Tree{"f0": &Entry{Kind: KLink, Dest: "nowhere"}, "f1": &Entry{Kind: KFile, Data: Bytes(5, 70000)}})
+	fmt.Printf("file->dir: %+v\nfile->symlink: %+v\n", b, c)
+	rb := b != nil && (b.Err != nil || b.Invariant != "")
+	rc := c != nil && (c.Err != nil || c.Invariant != "")
+	if rb || rc {
+		fmt.Println("WITNESS-REPRODUCED C02/kindchange-destroys-transposition-source")
 	} else {
-		fmt.Println("WITNESS-NOT-REPRODUCED C02/dirfile-kind-change-commit")
+		fmt.Println("WITNESS-NOT-REPRODUCED C02/kindchange-destroys-transposition-source")
 	}
 }
